@@ -27,6 +27,8 @@ UNITS = [
     {'name': 'k.sig_high_bits', 'backend': 'kani', 'tier': 'quick', 'props': ['C16']},
     {'name': 'k.mod2', 'backend': 'kani', 'tier': 'thorough', 'props': ['C12']},
     {'name': 'lenders.rewind', 'backend': 'verus', 'tier': 'quick', 'c12': False},
+    {'name': 'lenders.next', 'backend': 'verus', 'tier': 'quick', 'c12': False},
+    {'name': 'lenders.take', 'backend': 'verus', 'tier': 'quick', 'c12': False},
     {'name': 'bfv.core@u64', 'backend': 'verus', 'tier': 'quick'},
     {'name': 'bfv.core@usize', 'backend': 'verus', 'tier': 'quick'},
     {'name': 'bfv.core@u8', 'backend': 'verus', 'tier': 'quick'},
